@@ -683,10 +683,14 @@ fn small_family(tier: Tier, rng: &mut Rng, emit: &mut Emit) {
 }
 
 fn generate(tier: Tier, rng: &mut Rng, emit: &mut Emit) {
-    small_family(tier, rng, emit);
+    // The exhaustive <=3-stores family is deterministic: only the first shard of a thorough run
+    // (seed = VERIF_SEED * 1000, see `check`) emits it, the other shards emit the <=2-stores family.
+    let first_shard = (1..=4096u64).any(|b| Rng::new(b * 1000).0 == rng.0);
+    let small_tier = if tier == Tier::Thorough && !first_shard { Tier::Quick } else { tier };
+    small_family(small_tier, rng, emit);
     let n = match tier {
         Tier::Quick => 20_000,
-        Tier::Thorough => 250_000,
+        Tier::Thorough => 120_000,
     };
     for _ in 0..n {
         let (class, req) = gen_history(rng);
